@@ -298,8 +298,14 @@ def run(facts, rep, tier):
                 if not ok:
                     rep.add(Finding("R10.6", "Mach decode", "context '%s': term %s" % (lab, show_term(getattr(p, "term", None))[:120]), None))
             # vertical rate: barometric rate preferred, either direction
-            want_lo, want_hi = (-6000 + 16, -32) if s_baro else (32, 6000 - 16)
-            p = need(r, "vrate", want_lo if s_baro == s_ivv else min(want_lo, -5984 if s_ivv else 32), want_hi if s_baro == s_ivv else max(want_hi, -32 if s_ivv else 5984))
+            # with the barometric sign bit clear the validity gate (status set and sign|value != 0) makes the barometric value
+            # non-zero, so the barometric rate is always the one shown; with it set, a zero barometric value falls back to the
+            # inertial rate (either sign)
+            if not s_baro:
+                want_lo, want_hi = 32, 6000 - 16
+            else:
+                want_lo, want_hi = -6000 + 16, (-32 if s_ivv else 5984)
+            p = need(r, "vrate", want_lo, want_hi)
             if p is not None:
                 n6 += 1
                 ok = frame_deps(p, control=False) <= set(range(68, 89))
